@@ -16,6 +16,7 @@ import (
 	"github.com/cbeuw/Cloak/internal/ecdh"
 	"github.com/cbeuw/Cloak/internal/server"
 	"github.com/cbeuw/Cloak/internal/server/usermanager"
+	"github.com/cbeuw/Cloak/internal/simsync"
 	"github.com/cbeuw/Cloak/verifsim/simnet"
 )
 
@@ -104,7 +105,8 @@ func NewSrvWorld(c *Ctx, p SrvParams) *SrvWorld {
 		panic(fmt.Sprintf("InitState: %v", err))
 	}
 	sta.ProxyDialer = &simnet.Dialer{Net: c.Net, LocalIP: "10.0.0.2", Tag: "proxy"}
-	sta.RedirDialer = &simnet.Dialer{Net: c.Net, LocalIP: "10.0.0.2", Tag: "redir"}
+	// redirect links are named after the dispatching task (dispatcher.go:42#k = k-th accepted connection)
+	sta.RedirDialer = &simnet.Dialer{Net: c.Net, LocalIP: "10.0.0.2", Tag: "redir", TagFunc: simsync.CurrentTaskName}
 	w.Sta = sta
 	w.Mgr = sta.Panel.Manager
 	w.Front = c.Net.Listen(srvAddr)
